@@ -800,6 +800,7 @@ def check_C01(ctx):
     # every filter on something big (and two-filter chains): back within the deadline
     scal = ctx.gen("scaling", 600 if ctx.quick else 3000)
     scal += [dict(c, id="huge-%d" % k) for k, c in enumerate(ctx.gen("scaling", 3 * 6 * 49 + 16)[-16:])]
+    scal += ctx.gen("deepexpr", 54)         # every operator nested 12 / 30 / 48 levels deep
     ctx.validate(ctx.run_cases(scal, deadline=30, workers=4), module="TraceC01", nontrivial_key=lambda o: o.get("text", ""))
     pairs = ctx.gen("weirdpairs", 53 * 53 * 22)
     ctx.validate(ctx.run_cases(pairs, deadline=30), module="TraceC01", nontrivial_key=lambda o: o.get("text", ""))
